@@ -563,7 +563,7 @@ PROPS = {
             'technique': 'the TLA+ specification predicts every output byte (checked by the other properties\' trace validation); '
                          'here TLC compares traces of the same workload under two heap fill patterns and under memcheck',
             'rule': 'workloads of the encoder, decoder (frames, reassembly, faults, TECMP), status and builder generators; every '
-                    'episode is executed under MALLOC_PERTURB_=165 and =90 (fresh allocations filled with different patterns) and '
+                    'episode is executed under MALLOC_PERTURB_=165 and =90 (fresh allocations filled with different patterns; the stack region below the caller filled with the same two bytes before every operation) and '
                     'TLC (TraceSame) requires the two logs (every frame byte incl. padding and unused id bytes, every getter, every '
                     'raw payload) to be identical; a smaller workload is executed under valgrind memcheck '
                     '(--exit-on-first-error): any decision on, or logging of, an undefined byte ends the worker (crash event). '
